@@ -470,6 +470,84 @@ def inline_module_constants(tree: ast.Module, new_names: Set[str]) -> int:
     return len(env)
 
 
+# ------------------------------------------------------------------ comprehensions over tables
+class _UnrollComps(ast.NodeTransformer):
+    """{k: v for a, b in (<literal rows>)} -> {k1: v1, k2: v2, ...}; f(**{'a': x}) -> f(a=x)"""
+
+    def __init__(self) -> None:
+        self.n = 0
+
+    @staticmethod
+    def _rows(gen: ast.comprehension) -> Optional[List[Dict[str, ast.AST]]]:
+        if gen.ifs or gen.is_async or not isinstance(gen.iter, (ast.Tuple, ast.List)) or \
+                len(gen.iter.elts) > 16:
+            return None
+        out = []
+        for row in gen.iter.elts:
+            if isinstance(gen.target, ast.Name):
+                out.append({gen.target.id: row})
+            elif isinstance(gen.target, (ast.Tuple, ast.List)) and all(
+                    isinstance(e, ast.Name) for e in gen.target.elts) and isinstance(
+                        row, (ast.Tuple, ast.List)) and len(row.elts) == len(gen.target.elts):
+                out.append({e.id: r for e, r in zip(gen.target.elts, row.elts)})  # type: ignore
+            else:
+                return None
+        return out
+
+    def visit_DictComp(self, node: ast.DictComp) -> ast.AST:
+        self.generic_visit(node)
+        if len(node.generators) != 1:
+            return node
+        rows = self._rows(node.generators[0])
+        if rows is None:
+            return node
+        self.n += 1
+        b = _Beta()
+        return ast.copy_location(ast.Dict(
+            keys=[b.visit(_SubstNames(r).visit(copy.deepcopy(node.key))) for r in rows],
+            values=[b.visit(_SubstNames(r).visit(copy.deepcopy(node.value))) for r in rows]),
+            node)
+
+    def visit_ListComp(self, node: ast.ListComp) -> ast.AST:
+        self.generic_visit(node)
+        if len(node.generators) != 1:
+            return node
+        rows = self._rows(node.generators[0])
+        if rows is None or not isinstance(node.generators[0].target, (ast.Tuple, ast.List)):
+            return node
+        self.n += 1
+        b = _Beta()
+        return ast.copy_location(ast.List(
+            elts=[b.visit(_SubstNames(r).visit(copy.deepcopy(node.elt))) for r in rows],
+            ctx=ast.Load()), node)
+
+    def visit_Call(self, node: ast.Call) -> ast.AST:
+        self.generic_visit(node)
+        kws = []
+        changed = False
+        for k in node.keywords:
+            if k.arg is None and isinstance(k.value, ast.Dict) and k.value.keys and all(
+                    isinstance(kk, ast.Constant) and isinstance(kk.value, str) and
+                    kk.value.isidentifier() for kk in k.value.keys):
+                kws += [ast.keyword(arg=kk.value, value=vv)  # type: ignore[union-attr]
+                        for kk, vv in zip(k.value.keys, k.value.values)]
+                changed = True
+            else:
+                kws.append(k)
+        if changed:
+            self.n += 1
+            node.keywords = kws
+        return node
+
+
+def unroll_table_comprehensions(tree: ast.Module) -> int:
+    tr = _UnrollComps()
+    tree.body = [tr.visit(s_) for s_ in tree.body]
+    if tr.n:
+        ast.fix_missing_locations(tree)
+    return tr.n
+
+
 # ------------------------------------------------------------------ flag tests
 def fold_flag_tests(fn: ast.AST) -> int:
     """`if c: X; v = K1  else: Y; v = K2` directly followed by `if <test of v>: S [else: T]`:
